@@ -128,6 +128,20 @@ def scenarios(tier):
         yield ('message', f'shape{k}', m)
     for backend in ('dict', '++', 'fs'):
         yield ('expunged', backend)
+    if tier != 'quick':
+        # seeded hostile strings: bytes drawn from the special characters, lengths 1..40, in every position kind
+        import random
+        rnd = random.Random(20260926)
+        alpha = [b'"', b'\\', b'\r', b'\n', b'\x00', b'\xe9', b'\xc3\xa9', b' ', b'(', b')', b'{', b'}', b'%', b'*', b'[', b']', b'&', b'-',
+                 b'a', b'B', b'1', b'=?', b'?=', b';', b'=', b'<', b'>', b'@', b',', b':', b'/', b'\t', b'~', b'+', b'\x7f']
+        for _ in range(400):
+            h = b''.join(rnd.choice(alpha) for _ in range(rnd.choice((1, 2, 3, 5, 8, 20, 40))))
+            yield (rnd.choice(('mailbox', 'keyword', 'id', 'section', 'junk')), h)
+            yield ('header', rnd.choice(HEADER_FIELDS), h)
+            yield ('message', 'seeded-structured', rnd.choice(structured(h)))
+        for _ in range(200):
+            a, b = (b''.join(rnd.choice(alpha) for _ in range(rnd.choice((2, 5, 12)))) for _ in range(2))
+            yield ('message', 'two-headers', b'Subject: ' + a + b'\r\nFrom: ' + b + b'\r\nContent-Type: text/plain; name="' + a.replace(b'"', b'') + b'"\r\n\r\n' + b + b'\r\n')
 
 
 def exception_site(exc):
